@@ -224,13 +224,17 @@ Failed ==
    ---- site only if the implementation did exactly what the concrete model documents      ---- *)
 \* does the model, in the given or in one of the permuted orders, equate two same-path types whose candidate items differ?
 BadlyKeptAnyOrder == \E p \in UserPaths(Reg) : \E x, y \in IdsOfPath(Reg, p) : x # y /\ TypesEqual(Reg, x, y) /\ ~CoRepItems(Reg, S, x, y)
+\* for token identity (C17) a difference in a field-level Box counts as well: `Foo{a: u8}` / `Foo{a: Box<u8>}` are one registry shape,
+\* types_equal equates them, and the item of whichever comes first is kept
+KeptItemDependsOnOrder == \E p \in UserPaths(Reg) : \E x, y \in IdsOfPath(Reg, p) :
+                             x # y /\ TypesEqual(Reg, x, y) /\ CandidateItem(Reg, S, x) # CandidateItem(Reg, S, y)
 Known ==
   IF Drift THEN {}
   ELSE (IF UnfaithfulIds # {} /\ \A id \in UnfaithfulIds : Reach(Reg, id) \cap BadlyKept # {}
         THEN {<<"C03.Faithful", "KeepFirst.CandidateItemsDiffer">>} ELSE {})
        \cup (IF C18_Bad # {} /\ C18_Bad = C18_BadOnlyByConflation THEN {<<"C18.StandaloneStruct", "KeepFirst.CandidateItemsDiffer">>} ELSE {})
        \* order dependence that stems from a known conflation: the model keeps an id on an occupied path although its candidate item differs
-       \cup (IF BadlyKeptAnyOrder THEN {<<"C17.TokensInvariantUnderRenumbering", "KeepFirst.CandidateItemsDiffer">>, <<"C17.RenamePartitionInvariant", "KeepFirst.CandidateItemsDiffer">>,
+       \cup (IF BadlyKeptAnyOrder \/ KeptItemDependsOnOrder THEN {<<"C17.TokensInvariantUnderRenumbering", "KeepFirst.CandidateItemsDiffer">>, <<"C17.RenamePartitionInvariant", "KeepFirst.CandidateItemsDiffer">>,
                                           <<"C17.RestrictionSameItems", "KeepFirst.CandidateItemsDiffer">>, <<"C17.RestrictionGenerates", "KeepFirst.CandidateItemsDiffer">>} ELSE {})
 
 Verdict == Terminal =>
